@@ -301,6 +301,7 @@ class Stats:
         self.bound_exceeded = 0
         self.model_hits = 0
         self.known_hits = 0
+        self.resyncs = 0
 
     def merge(self, o):
         for k, v in o.__dict__.items():
